@@ -372,9 +372,20 @@ def oracle_e2e(ctx) -> None:
                 recs = [dict(v) for _ in recs]     # single-valued file
             table.append_records(recs)
             files.append(recs)
-        for _ in range(10 if ctx.tier == "quick" else 30):
+        # directed: the null tests on EVERY column (columns without stored bounds included), alone and next to a comparison
+        directed = []
+        for i in range(len(cols)):
+            for opn in ("is_null", "is_not_null"):
+                directed.append({f"c{i}": (opn, True)})
+                j = (i + 1) % len(cols)
+                if j != i:
+                    directed.append({f"c{i}": (opn, True), f"c{j}": (">=", rng.choice(E2E_DOMAIN[cols[j]]))})
+        nrand = 10 if ctx.tier == "quick" else 30
+        for fi in range(nrand + len(directed)):
             flt = {}
-            for _c in range(rng.choice([1, 1, 2])):
+            if fi >= nrand:
+                flt = directed[fi - nrand]
+            for _c in range(rng.choice([1, 1, 2]) if fi < nrand else 0):
                 i = rng.randrange(len(cols))
                 dom = E2E_DOMAIN[cols[i]]
                 r = rng.random()
